@@ -28,7 +28,7 @@ CHECKS = {
  "C09": ("sim+e2e", "fault_enumeration", "probe payments after every explored crash/fault history (recovery oracle)",
          "R09: after every explored history (random multi-crash/multi-fault, and the enumeration of one crash at every step and one write fault of either kind at every write), a restart (or none: same-process mode) plus up to three fully funded probe sets in a cooperative environment must settle, with the stored attempt left recent or aged beyond the MPP timeout; repeated with the real binary killed after RPC effect k.", SIM_NOTE + " E2E part trusts the fake lightningd."),
  "C10": ("sim", "exploration", "reference classifier derived from how each request was built vs observed classification",
-         "R10: observed classification (continue / fail-at-classification / held as trampoline with pay bolt11+amount) equals the reference over the invoice x signature x hints x hash x amount-field x flag product (3200 cases enumerated, plus random runs); the payee reported on payment failure equals the key the signature verifies against.", SIM_NOTE),
+         "R10: observed classification (continue / fail-at-classification / held as trampoline with pay bolt11+amount) equals the reference over the invoice x signature x hints x hash x amount-field x record-order x flag product (6000 cases enumerated, plus random runs); the payee reported on payment failure equals the key the signature verifies against.", SIM_NOTE),
  "C11": ("sim", "exploration", "virtual-time monitor on Fail timestamps relative to the stored-state read",
          "R11a incomplete sets get 0x2019 and no pay; R11b not before read+mpp; R11c not later than read+mpp+5ms; R11d restart grants at most one further timeout (aged stored histories).", SIM_NOTE + " Wall clock inside the plugin only enters R11d (tolerance 1 s + run wall time)."),
  "C12": ("pure+sim", "exploration", "reference oracle (u128 predicate) over boundary cross product and frontier-biased random inputs in debug, release and Miri builds; SIM monitor for the failure bytes",
